@@ -69,4 +69,12 @@ VF_E void b_xor_eq(B& a, B const& b) { a ^= b; }
 VF_E void b_and(B* out, B const& a, B const& b) { new (out) B(a & b); }
 VF_E void b_or(B* out, B const& a, B const& b) { new (out) B(a | b); }
 VF_E void b_xor(B* out, B const& a, B const& b) { new (out) B(a ^ b); }
+// "x = l op r" with x allowed to be the same object as an operand (x ^= x, x = x ^ x, ... are written in the harness by passing the same object)
+VF_E void b_assign_and(B& x, B const& l, B const& r) { x = l & r; }
+VF_E void b_assign_or(B& x, B const& l, B const& r) { x = l | r; }
+VF_E void b_assign_xor(B& x, B const& l, B const& r) { x = l ^ r; }
+VF_E void b_assign(B& x, B const& l) { x = l; }
+// chained compound form: the reference returned by the first operator is the right operand of the second, (x op= r) op2= x
+VF_E void b_chain_xor_and(B& x, B const& r) { (x ^= r) &= x; }
+VF_E void b_chain_or_xor(B& x, B const& r) { (x |= r) ^= x; }
 }
